@@ -995,6 +995,20 @@ impl DdlExecutor {
             .catalog()
             .store_relation(index_relation, &tree_builder, snapshot.xid())?;
 
+        // Fill the index before the table's own catalog entry is touched: that entry is
+        // rewritten in place, so if a duplicate key makes the statement fail the table must
+        // not be left pointing at an index that the rollback takes away.
+        self.populate_index(
+            table_root,
+            table_relation.schema(),
+            index_root,
+            &index_schema,
+            indexed_column_ids,
+        )?;
+
+        let snapshot = self.ctx.snapshot();
+        let tree_builder = self.ctx.tree_builder();
+
         {
             let table_schema = table_relation.schema_mut();
 
@@ -1019,14 +1033,6 @@ impl DdlExecutor {
             None,
             &tree_builder,
             &snapshot,
-        )?;
-
-        self.populate_index(
-            table_root,
-            table_relation.schema(),
-            index_root,
-            &index_schema,
-            indexed_column_ids,
         )?;
 
         Ok(object_id)
